@@ -934,10 +934,22 @@ class SymBytes(object):
     def __repr__(self):
         return "SymBytes(%d)" % len(self.v)
 
+    def _bound(self, b):
+        """slice bound: a symbolic bound beyond the end behaves like the
+        end (one path) - only bounds inside the buffer are enumerated"""
+        if b is None:
+            return None
+        if isinstance(b, SymInt) and not is_concrete_mode():
+            if b >= len(self.v):
+                return len(self.v)
+            if b < 0:
+                if b <= -len(self.v):
+                    return -len(self.v) if len(self.v) else 0
+        return int(b)
+
     def _idx(self, i):
         if isinstance(i, slice):
-            return slice(None if i.start is None else int(i.start),
-                         None if i.stop is None else int(i.stop),
+            return slice(self._bound(i.start), self._bound(i.stop),
                          None if i.step is None else int(i.step))
         return int(i)
 
